@@ -658,3 +658,107 @@ func nilCheckCut(fld *types.Var, keepNonNil bool) EdgeCut {
 		return edgeIsNil == keepNonNil
 	}
 }
+
+func init() {
+	reg("C13-R9", "the replacer is driven by the victim protocol only: ClockReplacer.Unpin (\"this frame may be evicted\") is called only by UnpinPage, where the frame holds the page that is mapped to it and its pin count has just dropped to zero; Pin only by FetchPage's cache-hit path; Victim only by getFrameID — a frame whose page object is stale (already evicted) is never offered for eviction again", func(w *World, r *Report) {
+		wmc(w, r, "ClockReplacer.Unpin", map[*types.Func]bool{w.MethodObj("storage/buffer", "ClockReplacer", "Unpin"): true}, map[string]string{
+			"(*storage/buffer.BufferPoolManager).UnpinPage": "pin count reached zero for the page mapped to the frame",
+		}, 1)
+		wmc(w, r, "ClockReplacer.Pin", map[*types.Func]bool{w.MethodObj("storage/buffer", "ClockReplacer", "Pin"): true}, map[string]string{
+			"(*storage/buffer.BufferPoolManager).FetchPage": "cache hit: the resident page is pinned again",
+		}, 1)
+		wmc(w, r, "ClockReplacer.Victim", map[*types.Func]bool{w.MethodObj("storage/buffer", "ClockReplacer", "Victim"): true}, map[string]string{
+			"(*storage/buffer.BufferPoolManager).getFrameID": "the only source of victim frames",
+		}, 1)
+	})
+
+	reg("C13-R10", "a frame id does not outlive the critical section it was read in: a value looked up in pageTable under b.mutex indexes b.pages only before that mutex is released — after an Unlock the frame may hold another page (evicted and re-used meanwhile), so marking / reading `b.pages[frameID]` then touches the wrong page", func(w *World, r *Report) {
+		pt := w.Field("storage/buffer", "BufferPoolManager", "pageTable")
+		pages := w.Field("storage/buffer", "BufferPoolManager", "pages")
+		mu := w.Field("storage/buffer", "BufferPoolManager", "mutex")
+		lt := w.LockTable()
+		nUse := 0
+		for _, fn := range w.methodsOf("storage/buffer", "BufferPoolManager") {
+			var lookups []ssa.Instruction
+			for _, b := range fn.Blocks {
+				for _, in := range b.Instrs {
+					if l, ok := in.(*ssa.Lookup); ok && fieldLoadOf(l.X, pt) {
+						lookups = append(lookups, in)
+					}
+				}
+			}
+			if len(lookups) == 0 {
+				continue
+			}
+			isUnlock := func(in ssa.Instruction) bool {
+				c, ok := in.(ssa.CallInstruction)
+				if !ok || CalleeObj(c) == nil || lt.ops[CalleeObj(c)] != opUnlock {
+					return false
+				}
+				if _, isDefer := in.(*ssa.Defer); isDefer {
+					return false
+				}
+				args := c.Common().Args
+				return len(args) > 0 && DependsOn(args[0], func(x ssa.Value) bool { return isFieldAddrOf(x, mu) || fieldLoadOf(x, mu) })
+			}
+			var bad []string
+			for _, b := range fn.Blocks {
+				for _, in := range b.Instrs {
+					ia, ok := in.(*ssa.IndexAddr)
+					if !ok || !fieldLoadOf(ia.X, pages) {
+						continue
+					}
+					for _, l := range lookups {
+						lv := l.(ssa.Value)
+						if !DependsOn(ia.Index, func(x ssa.Value) bool { return x == lv }) {
+							continue
+						}
+						nUse++
+						// is there an Unlock k with l ->* k ->* use (the second leg not re-executing l)?
+						use := in
+						for _, kb := range fn.Blocks {
+							for _, k := range kb.Instrs {
+								if !isUnlock(k) {
+									continue
+								}
+								leg1 := (&PathQ{Fn: fn, Target: func(x ssa.Instruction) bool { return x == k }}).FromAfter([]ssa.Instruction{l})
+								if leg1 == nil {
+									continue
+								}
+								leg2 := (&PathQ{Fn: fn, Avoid: func(x ssa.Instruction) bool { return x == l }, Target: func(x ssa.Instruction) bool { return x == use }}).FromAfter([]ssa.Instruction{k})
+								if leg2 != nil {
+									bad = append(bad, fmt.Sprintf("frame id read at %s is used to index b.pages at %s after b.mutex was released at %s", w.InstrPos(l), w.InstrPos(use), w.InstrPos(k)))
+								}
+							}
+						}
+					}
+				}
+			}
+			r.Check(len(bad) == 0, "BPM."+fn.Name()+":frame-id-used-inside-its-critical-section", "frame ids read from pageTable index b.pages only before the pool mutex is released", strings.Join(uniq(bad), "; "))
+		}
+		r.Floor("uses of a looked-up frame id as index of b.pages", nUse, 3)
+	})
+
+	reg("C09-R5", "a clean shutdown (and a checkpoint) writes every dirty page: in FlushAllDirtyPages, with IsDirty() assumed true, no path reaches the end of the loop iteration (the page's RUnlatch) without adding the page to the list that is flushed — no other condition may exclude a dirty page (a deallocated one still determines the length of the data file, from which the next launch derives the next page id)", func(w *World, r *Report) {
+		a := w.A()
+		fn := w.SSA(a.BPMFlushAllDirty)
+		sites := sitesCalling(fn, a.PageIsDirty)
+		r.Floor("IsDirty tests in FlushAllDirtyPages", len(sites), 1)
+		isCollect := func(in ssa.Instruction) bool {
+			c, ok := in.(*ssa.Call)
+			if !ok {
+				return false
+			}
+			b, ok := c.Call.Value.(*ssa.Builtin)
+			if !ok || b.Name() != "append" {
+				return false
+			}
+			sl, ok := c.Type().Underlying().(*types.Slice)
+			return ok && strings.HasSuffix(sl.Elem().String(), "types.PageID")
+		}
+		wit := (&PathQ{Fn: fn, Cut: []EdgeCut{CutWhen(IsCallTo(a.PageIsDirty), false)}, Avoid: isCollect, Target: func(in ssa.Instruction) bool {
+			return isReturn(in) || InstrCallsObj(a.PageRUnlatch)(in)
+		}}).FromAfter(sites)
+		r.Check(wit == nil, "FlushAllDirtyPages:every-dirty-page-is-collected", "every page found dirty is put on the list of pages to flush", "a dirty page can be skipped: "+w.DescribeWitness(fn, wit))
+	})
+}
